@@ -25,9 +25,19 @@ def cli_leg(ctx):
     cfg = os.path.join(root, "store.yaml")
     open(cfg, "w").write(fsfam.CFG % (base, base64.b64encode(fsfam.HMAC1).decode()))
     n = 0
+    # the expected verdicts come from an independent call of the zxcvbn library (cmd/pwscore), not from guesses
+    cands = [WEAK, STRONG + " 2", "a" * 120, "password" * 16, "ab" * 100, "a" * 101, "correct horse battery staple", "Tr0ub4dor&3",
+             "qzj7w#kx9v", "x" * 64 + "y", "1234567890" * 11]
+    pairs = [[u, p] for u in ("carl", "bob") for p in cands]
+    sc = subprocess.run([ctx.build("./cmd/pwscore")], input=json.dumps(pairs), stdout=subprocess.PIPE, text=True)
+    if sc.returncode != 0:
+        ctx.fatal("pwscore failed")
+    figures = {(u, p): f for (u, p), f in zip(map(tuple, pairs), json.loads(sc.stdout))}
     for cond in ("score >= 3", "entropy >= 60", "time >= 1000000"):
+        kind, thr = cond.split()[0], float(cond.split()[2])
         for cmd, weak_ok in ((["add", "carl"], False), (["update", "bob"], False)):
-            for pw, passes in ((WEAK, False), (STRONG + " 2", True)):
+            for pw in cands:
+                passes = figures[(cmd[1], pw)][kind] >= thr
                 before = {f: open(os.path.join(base, f), "rb").read() for f in os.listdir(base) if os.path.isfile(os.path.join(base, f))}
                 r = subprocess.run([exe, "--store", cfg, "--policy-type", "zxcvbn", "--policy-condition", cond] + cmd + [pw],
                                    stdout=subprocess.PIPE, stderr=subprocess.STDOUT, text=True, timeout=30)
@@ -37,7 +47,7 @@ def cli_leg(ctx):
                     ctx.violation("C17", "cli-stored-failing-password:%s:%s" % (cmd[0], cond.split()[0]), "exit %d, store changed=%s: %s" % (r.returncode, after != before, r.stdout[-200:]))
                 if passes and r.returncode != 0:
                     ctx.violation("C17", "cli-refused-passing-password:%s:%s" % (cmd[0], cond.split()[0]), r.stdout[-200:])
-                if passes and cmd[0] == "add":
+                if cmd[0] == "add" and os.path.exists(os.path.join(base, "carl.user")):
                     os.remove(os.path.join(base, "carl.user"))
         # an unparsable policy stops every command
         for badcond in ("score > 3", "score >= 9", "", "entropy >= x"):
@@ -64,11 +74,19 @@ def run(ctx):
     cov["states"] += pol["distinct"]; cov["transitions"] += pol["generated"]
     inp = os.path.join(ctx.scratch, "policy.ndjson"); vlib.write_ndjson(inp, pol["edges"])
     outp = os.path.join(ctx.scratch, "policy.json")
+    # binary-level legs first: they do not depend on the package's internal signatures
+    cov["cli_runs"] = cli_leg(ctx)
+    import clifam
+    clifam.replay(ctx, "C17", only=lambda c: c["cmd"] in ("init", "add", "update"))
     rc, out = ctx.inpkg_test([], "TestVerifPolicy", timeout=900, env={"VERIF_IN": inp, "VERIF_OUT": outp,
                                                                      "VERIF_SCRATCH": os.path.join(ctx.scratch, "policydir")})
     if rc != 0 or not os.path.exists(outp):
-        ctx.fatal("policy replay failed: " + out[-2000:])
-    pr = json.load(open(outp))
+        ctx.inconclusive.append("policy replay failed: " + out[-1500:])
+        if "[build failed]" in out or "# github.com/whawty" in out:      # the in-package drivers do not compile against this tree
+            ctx.finish()
+        pr = {"violations": [], "cases": 0, "verdict_evaluations": 0}
+    else:
+        pr = json.load(open(outp))
     for v in pr["violations"] or []:
         ctx.violation("C17", v["key"], v["detail"])
     # every write path of the running agent, every condition kind: traces validated with PolicyOK computed independently
@@ -110,9 +128,6 @@ def run(ctx):
     cov["traces_validated_against_impl"] = nval + pr["cases"]
     cov["evaluations"] = len(events) + pr["verdict_evaluations"]
     cov["distinct_nontrivial"] = pr["cases"]
-    cov["cli_runs"] = cli_leg(ctx)
-    import clifam
-    clifam.replay(ctx, "C17", only=lambda c: c["cmd"] in ("init", "add", "update"))
     cov["rule"] = ("policy condition strings: every Policy case through NewPasswordPolicy/NewStore, verdicts against an independent zxcvbn "
                    "call; write paths: add/update via the in-process interface and the HTTP API, init, local upgrade and seeded loads "
                    "for each condition kind, traces validated against TraceAgent with PolicyOK computed independently; CLI on the built binary")
